@@ -1,9 +1,10 @@
 #!/bin/sh
 # sweep.sh [tier]: runs every claimed check once, prints one line per check
-cd /verif
+cd "$(dirname "$0")/.." || exit 2
+mkdir -p .work
 tier=${1:-quick}
 for id in $(python3 -c "import json;print(' '.join(c['property_id'] for c in json.load(open('MANIFEST.json'))['checks']))"); do
   s=$(date +%s)
-  ./check $id --tier $tier > .work/sweep_$id.log 2>&1; rc=$?
-  echo "$id rc=$rc $(( $(date +%s) - s ))s $(grep -c '^VIOLATION' .work/sweep_$id.log) violations"
+  ./check $id --tier $tier $2 > .work/sweep_${tier}_$id.log 2>&1; rc=$?
+  echo "$id rc=$rc $(( $(date +%s) - s ))s $(grep -c "^VIOLATION" .work/sweep_${tier}_$id.log) violations $(grep -c "^INCONCLUSIVE" .work/sweep_${tier}_$id.log) inconclusive"
 done
